@@ -380,8 +380,10 @@ class ProgGen:
         if self.movs:
             kinds.append("mov")
         if depth > 0:
-            kinds += ["if", "if", "ifelse", "loop"]
+            kinds += ["if", "if", "ifelse", "loop", "tgt-gate", "tgt-gate", "tgt-gate"]
         k = rng.choice(kinds)
+        if k == "tgt-gate":
+            return self.gate_as_target(depth)
         if k == "g1":
             cs = [c for c in GATE1 if c not in self.exclude]
             qr = self.qreg()
@@ -468,6 +470,68 @@ class ProgGen:
             self.features.add("loop")
         else:
             self.stmt(depth)
+
+    def gate_as_target(self, depth):
+        """A branch/jump whose TARGET is the gate itself (not the `set`s before it): the gate as the
+        head of a do-while loop (backward branch) or as the join point of a skipped block (forward
+        branch). Every kind of expanded gate, in particular carbon-carbon ones whose expansion carries
+        debug markers. The gate's registers are dedicated per nesting depth (Q8..Q13) and written once,
+        straight-line before the label, so they hold what the pass assumes on every path."""
+        rng = self.rng
+        qa, qb = 8 + 2 * depth, 9 + 2 * depth
+        kinds = ["g1", "rot"]
+        if self.nq >= 2:
+            kinds += ["ec", "ce"]
+        if self.nq >= 3:
+            kinds += ["cc", "cc", "cc"]
+        kind = rng.choice(kinds)
+        if kind in ("g1", "rot"):
+            self.emit("core.SetInstruction", reg(Q, qa), imm(rng.randrange(self.nq)))
+            if kind == "g1":
+                cs = [c for c in GATE1 if c not in self.exclude]
+                gate = ins(rng.choice(cs), reg(Q, qa))
+            else:
+                gate = ins(rng.choice(ROTS), reg(Q, qa), imm(rng.randrange(32)), imm(rng.randrange(5)))
+        else:
+            if kind == "ec":
+                a, b = 0, rng.randrange(1, self.nq)
+            elif kind == "ce":
+                a, b = rng.randrange(1, self.nq), 0
+            else:
+                a = rng.randrange(1, self.nq)
+                b = rng.choice([x for x in range(1, self.nq) if x != a])
+            self.emit("core.SetInstruction", reg(Q, qa), imm(a))
+            self.emit("core.SetInstruction", reg(Q, qb), imm(b))
+            gate = ins(rng.choice(["vanilla.CnotInstruction", "vanilla.CphaseInstruction"]), reg(Q, qa), reg(Q, qb))
+        self.features.add("target-is-" + kind)
+        if rng.random() < 0.5:
+            # backward: do-while with the gate as loop head
+            cnt, lim = 8 + depth, 11 + depth
+            top = self.new_label()
+            self.emit("core.SetInstruction", reg(R, cnt), imm(0))
+            self.emit("core.SetInstruction", reg(R, lim), imm(rng.randrange(1, 4)))
+            if rng.random() < 0.7:
+                self.stmt(0)  # something right before the head, re-executed if the branch lands early
+            self.place(top)
+            self.items.append(gate)
+            for _ in range(rng.choice([0, 1, 2])):
+                self.stmt(depth - 1)
+            self.emit("core.AddInstruction", reg(R, cnt), reg(R, cnt), reg(R, 14))
+            self.emit("core.BltInstruction", reg(R, cnt), reg(R, lim), {"lab": top})
+            self.features.add("target-backward")
+        else:
+            # forward: a conditionally skipped block that joins at the gate
+            join = self.new_label()
+            if rng.random() < 0.5:
+                self.emit(rng.choice(BR1), reg(M, rng.randrange(3)), {"lab": join})
+            else:
+                self.emit(rng.choice(BR2), reg(R, rng.randrange(6)),
+                          reg(rng.choice([R, M]), rng.randrange(3)), {"lab": join})
+            for _ in range(rng.choice([1, 2])):
+                self.stmt(depth - 1)
+            self.place(join)
+            self.items.append(gate)
+            self.features.add("target-forward")
 
     def block(self, depth):
         for _ in range(self.rng.choice([1, 1, 2, 3])):
